@@ -180,7 +180,7 @@ def r_progress(chk, P, tier):
         elif is_call(rest, name=ERR):
             continue
         ok = any(is_call(t, name=ERR) for t in walk_terms(rest)) or any(
-            t[0] == "call" and isinstance(t[1], str) and t[1].endswith("for str>::index") for t in walk_terms(rest))
+            t[0] == "call" and isinstance(t[1], str) and (t[1].endswith("for str>::index") or t[1].endswith("<impl str>::split_at")) for t in walk_terms(rest))
         if not ok and bad is None:
             bad = pp(rest)
     chk.expect(bad is None and cnt >= 40, "parse_next_item paths", "a path returns Some with the unconsumed input (%s) / %d paths" % (bad, cnt), loc=P.loc(PNI))
